@@ -1,8 +1,187 @@
-import WhVerif.Model.C18
+import WhVerif.Lemmas.C18Abs
+/-!
+# C18 — priority queue and component finder match their abstract models on all histories
+
+Model: `WhVerif/Model/C18.lean`; specifications (`Inv`, `AStep`, `ARun`, `replay`, `Allowed`, `Conn`, …):
+`WhVerif/Spec/C18.lean`.
+-/
 namespace WhVerif.Props.C18
 open WhVerif.C18
-theorem scoreLower_irrefl (a : Score) : scoreLower a a = false := by
-  induction a with
-  | nil => rfl
-  | cons x xs ih => simp [scoreLower, ih]
+
+/-! ## A. `_vector_score_lower` is a strict total order (so "not lower" is a total preorder `≥`) -/
+
+theorem scoreLower_irrefl (a : Score) : scoreLower a a = false := WhVerif.C18.scoreLower_irrefl a
+
+theorem scoreLower_trans (a b c : Score) (h1 : scoreLower a b = true) (h2 : scoreLower b c = true) :
+    scoreLower a c = true := WhVerif.C18.scoreLower_trans a b c h1 h2
+
+theorem scoreLower_asymm (a b : Score) (h : scoreLower a b = true) : scoreLower b a = false :=
+  WhVerif.C18.scoreLower_asymm a b h
+
+theorem scoreLower_trichotomy (a b : Score) : scoreLower a b = true ∨ a = b ∨ scoreLower b a = true :=
+  WhVerif.C18.scoreLower_trichotomy a b
+
+/-- `a ≥ b` and `b ≥ c` give `a ≥ c` where `x ≥ y` is `scoreLower x y = false` -/
+theorem scoreGe_trans (a b c : Score) (h1 : scoreLower a b = false) (h2 : scoreLower b c = false) :
+    scoreLower a c = false := WhVerif.C18.scoreLower_negtrans a b c h1 h2
+
+theorem scoreGe_total (a b : Score) : scoreLower a b = false ∨ scoreLower b a = false :=
+  WhVerif.C18.scoreLower_total a b
+
+/-- `≥` is antisymmetric: a genuine total order, ties are equal score vectors -/
+theorem scoreGe_antisymm (a b : Score) (h1 : scoreLower a b = false) (h2 : scoreLower b a = false) :
+    a = b := by
+  rcases WhVerif.C18.scoreLower_trichotomy a b with h | h | h
+  · simp [h] at h1
+  · exact h
+  · simp [h] at h2
+
+example : scoreLower [1, 2] [1, 3] = true ∧ scoreLower [1, 3] [2] = true ∧ scoreLower [1, 2] [2] = true := by decide
+example : scoreLower [1] [1, 0] = true ∧ scoreLower [1, 0] [1] = false := by decide
+example : scoreLower [3, 1] [2, 9] = false ∧ scoreLower [2, 9] [2] = false := by decide
+
+/-! ## B. the heap refines the abstract map -/
+
+theorem inv_empty : Inv ({} : PQ) := WhVerif.C18.inv_empty
+
+/-- every operation (also the misuse answers, which leave the state unchanged) preserves the invariant -/
+theorem step_preserves_inv (q : PQ) (hinv : Inv q) (op : Op) : Inv (step q op).1 :=
+  (step_refines hinv op).1
+
+theorem push_preserves_inv (q : PQ) (hinv : Inv q) (s : Score) (item : Nat) (hnew : q.contains item = false) :
+    Inv (q.push s item) := by
+  have := (step_refines hinv (.push s item)).1
+  simpa [step, hnew] using this
+
+theorem pop_preserves_inv (q q' : PQ) (e : Entry) (hinv : Inv q) (h : q.pop = some (e, q')) : Inv q' := by
+  have := (step_refines hinv .pop).1
+  simpa [step, h] using this
+
+theorem changeScore_preserves_inv (q q' : PQ) (hinv : Inv q) (item : Nat) (s : Score)
+    (h : q.changeScore item s = some q') : Inv q' := by
+  have := (step_refines hinv (.change item s)).1
+  simpa [step, h] using this
+
+/-- misuse answers leave the state unchanged -/
+theorem misuse_unchanged (q : PQ) (op : Op) (h : (step q op).2 = .misuse) : (step q op).1 = q := by
+  cases op with
+  | push s item => simp only [step] at h ⊢; split <;> simp_all
+  | pop => simp only [step] at h ⊢; split <;> simp_all
+  | change item s => simp only [step] at h ⊢; split <;> simp_all
+  | get item => rfl
+  | len => rfl
+  | isEmpty => rfl
+
+/-- the invariant holds after every history from the empty queue -/
+theorem inv_reachable (ops : List Op) : Inv (exec {} ops) := exec_inv WhVerif.C18.inv_empty ops
+
+/-- `pop` returns a queued entry of maximal score and removes exactly it; empty queue = `none` -/
+theorem pop_returns_max (q : PQ) (hinv : Inv q) :
+    match q.pop with
+    | none => q.entries = []
+    | some (e, q') => q.entries.Perm ((e.item, e.score) :: q'.entries) ∧
+        ∀ p ∈ q.entries, scoreLower e.score p.2 = false := by
+  obtain ⟨ho, hp⟩ := (inv_iff q).mp hinv
+  cases hpop : q.pop with
+  | none =>
+    have := (pop_none_iff q).mp hpop
+    simp [PQ.entries, Array.eq_empty_of_size_eq_zero this]
+  | some r =>
+    obtain ⟨e, q'⟩ := r
+    obtain ⟨_, _, hperm, hmax, _⟩ := pop_some hpop ho hp
+    exact ⟨hperm, hmax⟩
+
+/-- one step from a state satisfying the invariant is a step of the abstract queue on the heap's entries -/
+theorem step_refines_map (q : PQ) (hinv : Inv q) (op : Op) :
+    AStep q.entries op (step q op).1.entries (step q op).2 := (step_refines hinv op).2
+
+/-- **refinement**: for every history from the empty queue, the list of answers is a list of answers of
+the abstract queue (finite map item ↦ score; `pop` removes some entry of maximal score). -/
+theorem pq_refines_map (ops : List Op) : ARun [] ops (run {} ops) :=
+  run_refines WhVerif.C18.inv_empty ops
+
+/-- the same from any state satisfying the invariant -/
+theorem pq_refines_map_from (q : PQ) (hinv : Inv q) (ops : List Op) : ARun q.entries ops (run q ops) :=
+  run_refines hinv ops
+
+/-- the abstract queue keeps its keys distinct -/
+theorem astep_keys_nodup (M M' : AMap) (op : Op) (o : Out) (hn : M.keys.Nodup) (h : AStep M op M' o) :
+    M'.keys.Nodup := (astep_replay hn (.refl M) h).1
+
+/-- **explicit form**: the `k`-th answer of any history from the empty queue is the answer `Allowed` by
+the finite map `replay [] …` of the items queued with the scores last assigned (computed from the
+operations and the earlier answers only): `pop` answers an entry of that map with maximal score (or
+`empty` iff the map is empty), `get`/`len`/`isEmpty` report exactly that map, `push`/`change` answer
+`misuse` iff the item is already / not queued. -/
+theorem pq_answers_allowed (ops : List Op) (k : Nat) (hk : k < ops.length) :
+    (replay [] (ops.take k) ((run {} ops).take k)).keys.Nodup ∧
+    Allowed (replay [] (ops.take k) ((run {} ops).take k)) ops[k]
+      ((run {} ops)[k]'(by rw [run_length]; exact hk)) :=
+  arun_allowed (pq_refines_map ops) (by simp [AMap.keys]) (.refl _) k hk
+
+/-- the heap's entries after a history are the replayed map -/
+theorem entries_eq_replay (ops : List Op) :
+    (exec {} ops).entries.Perm (replay [] ops (run {} ops)) := by
+  suffices h : ∀ (q : PQ) (N : AMap), Inv q → q.entries.keys.Nodup → q.entries.Perm N →
+      (exec q ops).entries.Perm (replay N ops (run q ops)) by
+    exact h {} [] WhVerif.C18.inv_empty (by simp [PQ.entries, AMap.keys]) (by simp [PQ.entries])
+  induction ops with
+  | nil => intro q N _ _ h; exact h
+  | cons op ops ih =>
+    intro q N hinv hn hperm
+    obtain ⟨hinv', hstep⟩ := step_refines hinv op
+    obtain ⟨hn', hperm', _⟩ := astep_replay hn hperm hstep
+    exact ih _ _ hinv' hn' hperm'
+
+/-- in a history suffix consisting only of pops, successive popped scores are non-increasing -/
+theorem pop_nonincreasing (ops : List Op) (k : Nat) :
+    ((run {} (ops ++ List.replicate k .pop)).drop ops.length).Pairwise
+      (fun o1 o2 => ∀ s1 i1 s2 i2, o1 = .popped s1 i1 → o2 = .popped s2 i2 → scoreLower s1 s2 = false) := by
+  rw [run_append, List.drop_left' (run_length _ _)]
+  exact arun_pops_pairwise (run_refines (inv_reachable ops) _)
+
+/-- two successive pops: the second score is not greater than the first -/
+theorem pop_pop_nonincreasing (q q1 q2 : PQ) (e1 e2 : Entry) (hinv : Inv q)
+    (h1 : q.pop = some (e1, q1)) (h2 : q1.pop = some (e2, q2)) : scoreLower e1.score e2.score = false := by
+  have a := pop_returns_max q hinv
+  have b := pop_returns_max q1 (pop_preserves_inv q q1 e1 hinv h1)
+  rw [h1] at a; rw [h2] at b
+  exact a.2 _ (a.1.mem_iff.mpr (List.mem_cons_of_mem _ (b.1.mem_iff.mpr (List.mem_cons_self ..))))
+
+/-- lookups report exactly the queued items: `get_score_by_item`, `len`, `is_empty`, `in` -/
+theorem reports_exactly_queued (q : PQ) (hinv : Inv q) (item : Nat) :
+    q.getScore item = q.entries.lookup item ∧ q.len = q.entries.length ∧
+      q.isEmpty = q.entries.isEmpty ∧ (q.contains item = true ↔ item ∈ q.entries.keys) ∧
+      q.entries.keys.Nodup := by
+  obtain ⟨ho, hp⟩ := (inv_iff q).mp hinv
+  have hn : q.entries.keys.Nodup := entries_keys_nodup hp
+  refine ⟨?_, by simp [PQ.len, PQ.entries], ?_, ?_, hn⟩
+  · cases hg : q.getScore item with
+    | none => rw [lookup_of_not_mem (getScore_none hp hg)]
+    | some s => rw [lookup_of_mem hn (getScore_some hp hg)]
+  · rw [Bool.eq_iff_iff]; simp [PQ.isEmpty, PQ.entries]
+  · rw [mem_keys_iff hp, PQ.contains, Option.isSome_iff_exists]
+
+/-- draining a queue yields exactly its entries (as a multiset), used by C07 -/
+theorem drain_is_permutation (q : PQ) (hinv : Inv q) :
+    (run q (List.replicate q.len .pop)).Perm (q.entries.map (fun p => Out.popped p.2 p.1)) := by
+  have h := run_refines hinv (List.replicate q.len .pop)
+  have hl : q.len = q.entries.length := by simp [PQ.len, PQ.entries]
+  rw [hl] at h ⊢
+  exact arun_drain h
+
+/-! ### non-vacuity -/
+
+/-- a concrete 4-entry heap with equal scores, tuple scores of different lengths -/
+def exQ : PQ := exec {} [.push [1, 2] 7, .push [3] 4, .push [1, 2] 5, .push [1, 2, 0] 9, .change 7 [0]]
+
+example : exQ.heap.size = 4 ∧ exQ.contains 9 = true ∧ exQ.contains 3 = false := by decide +kernel
+example : Inv exQ := inv_reachable _
+example : exQ.pop.map (·.1) = some ⟨[3], 4⟩ := by decide +kernel
+example : (exQ.changeScore 5 [9]).isSome = true := by decide +kernel
+example : (step exQ (.push [0] 4)).2 = .misuse ∧ (step exQ (.change 3 [0])).2 = .misuse := by decide +kernel
+example : run {} [.push [1] 1, .push [2] 2, .change 1 [3], .pop, .get 1, .get 2, .len, .pop, .pop, .isEmpty]
+    = [.unit, .unit, .unit, .popped [3] 1, .score none, .score (some [2]), .len 1, .popped [2] 2, .empty,
+       .isEmpty true] := by decide +kernel
+
 end WhVerif.Props.C18
